@@ -1346,9 +1346,9 @@ _INTERN = {}
 
 
 def _hfun(k):
-    if k not in _HFUN:
-        _HFUN[k] = z3.Function(f"H{k}", *([z3.BitVecSort(W)] * k), z3.BitVecSort(W))
-    return _HFUN[k]
+    if (k, W) not in _HFUN:
+        _HFUN[(k, W)] = z3.Function(f"H{k}_{W}", *([z3.BitVecSort(W)] * k), z3.BitVecSort(W))
+    return _HFUN[(k, W)]
 
 
 def _hkey(x):
@@ -1485,6 +1485,10 @@ def dispatch(f, /, *a, **k):
         return SymStream(a[0]) if a else SymStream()
     if f is bytearray and not a:
         return SByteArray()
+    if f is builtins.len and _real_len(a) == 1:
+        lm = getattr(_real_type(a[0]), "__len__", None)
+        if _real_type(lm) is _types.FunctionType and _real_type(a[0]) not in PROXY_TYPES:
+            return lm(a[0])  # Python-level __len__ (MetaType, Structure): its result may be symbolic
     if f is builtins.bytes and _real_len(a) == 1 and not k:
         bm = getattr(_real_type(a[0]), "__bytes__", None)
         if _real_type(bm) is _types.FunctionType and _real_type(a[0]) not in PROXY_TYPES:
